@@ -76,7 +76,7 @@ func c08GenField(r *core.Rand, name string) c08Field {
 		case 2:
 			f.Lines = append(f.Lines, r.Pick([]string{" ", "  ", "\t", " \t "})+gen.ValueLine(r))
 		case 3:
-			f.Lines = append(f.Lines, r.Pick([]string{"#not a comment", "..", ". x", "Key: value", "-- ", ".hidden"}))
+			f.Lines = append(f.Lines, r.Pick([]string{"#not a comment", "..", ". x", "Key: value", "-- ", ".hidden", " .", "  .", "\t."}))
 			f.Lines[len(f.Lines)-1] = strings.TrimRight(f.Lines[len(f.Lines)-1], " ")
 		default:
 			f.Lines = append(f.Lines, gen.ValueLine(r))
